@@ -241,6 +241,8 @@ class CorrFunc(
             return NotImplemented
 
         self.is_compatible(other, require=True)
+        if set(self.to_dict()) != set(other.to_dict()):
+            raise ValueError("operands hold different sets of pair counts")
         kwargs = {
             attr: counts + getattr(other, attr)
             for attr, counts in self.to_dict().items()
